@@ -111,6 +111,7 @@ type vhC09Param struct {
 }
 
 type vhC09Route struct {
+	ctl              string // receiver type, "Ctl" when empty
 	name, verb, path string
 	params           []vhC09Param
 	result           int
@@ -120,6 +121,13 @@ type vhC09Route struct {
 func vhC09Source(routes []vhC09Route) string {
 	var sb strings.Builder
 	sb.WriteString(vhC09Head)
+	second := false
+	for _, r := range routes {
+		if r.ctl == "Second" && !second {
+			second = true
+			sb.WriteString("// @Route(/second)\n// @Tag(Second)\ntype Second struct {\n\truntime.GleeceController\n}\n\n")
+		}
+	}
 	for _, r := range routes {
 		sb.WriteString("// @Method(" + r.verb + ")\n// @Route(" + r.path + ")\n")
 		for _, p := range r.params {
@@ -130,7 +138,11 @@ func vhC09Source(routes []vhC09Route) string {
 		if r.security {
 			sb.WriteString("// @Security(sec, { scopes: [\"read\"] })\n")
 		}
-		sb.WriteString("func (c *Ctl) " + r.name + "(")
+		ctl := r.ctl
+		if ctl == "" {
+			ctl = "Ctl"
+		}
+		sb.WriteString("func (c *" + ctl + ") " + r.name + "(")
 		for k, p := range r.params {
 			if k > 0 {
 				sb.WriteString(", ")
@@ -506,4 +518,73 @@ func vh_C09_front_cross_T() {
 	routes := []vhC09Route{{name: "Op", verb: "POST", path: "/op", params: []vhC09Param{{"q", "Query", vhC09ParamTypes[pt]}, {"payload", "Body", vhC09BodyTypes[body]}}, result: res}}
 	run, ok := vhC09Generate(routes, cfg)
 	vhC09Finish(run, ok, "routes", engine, "Op")
+}
+
+// form fields of every convertible type, one or two of them, per engine
+func vh_C09_front_form_types_Q() {
+	engine := symxChoice("engine", 5)
+	pt := symxChoice("ptype", len(vhC09ParamTypes))
+	two := vhC09Flag("two")
+	params := []vhC09Param{{"f1", "FormField", vhC09ParamTypes[pt]}}
+	if two {
+		params = append(params, vhC09Param{"f2", "FormField", "string"})
+	}
+	routes := []vhC09Route{{name: "Op", verb: "POST", path: "/op", params: params, result: 1}}
+	run, ok := vhC09Generate(routes, vhC09Config(engine, ""))
+	vhC09Finish(run, ok, "routes", engine, "Op")
+}
+
+// two controllers of one package, each with a route; the second route's shape varies
+func vh_C09_front_two_controllers_Q() {
+	engine := symxChoice("engine", 5)
+	res := symxChoice("result", 6)
+	body := symxChoice("body", 4)
+	params := []vhC09Param{{"id", "Path", "string"}}
+	if body > 0 {
+		params = append(params, vhC09Param{"data", "Body", []string{"", "Model", "other.Ext", "[]Model"}[body]})
+	}
+	routes := []vhC09Route{
+		{name: "Get", verb: "GET", path: "/get", params: []vhC09Param{{"q", "Query", "int"}}, result: 1},
+		{ctl: "Second", name: "Put", verb: "PUT", path: "/put/{id}", params: params, result: res},
+	}
+	run, ok := vhC09Generate(routes, vhC09Config(engine, ""))
+	vhC09Finish(run, ok, "routes", engine, "Get", "Put")
+}
+
+// the file system fails at any step (engine only): generation reports success iff the file was written in full
+func vh_C09_front_faults_E_Q() {
+	if !symxIsSymbolic() {
+		return
+	}
+	engine := symxChoice("engine", 5)
+	symxRealLibrary("raymond")
+	routes := []vhC09Route{{name: "Op", verb: "GET", path: "/op", params: []vhC09Param{{"q", "Query", "int"}}, result: 1}}
+	cfg := vhC09Config(engine, "")
+	fr, err := visitors.VhLoadSource(vhC09Source(routes), nil)
+	symxAssert(err == nil, "C09.fixture-compiles")
+	if err != nil {
+		return
+	}
+	meta, err := pipeline.VhNewPipeline(fr, cfg).Run()
+	symxAssert(err == nil, "C09.faults.project-accepted")
+	if err != nil {
+		return
+	}
+	err = GenerateRoutes(cfg, meta)
+	failed, wrote := false, false
+	for _, e := range symxEnvLog() {
+		if strings.HasPrefix(e, "stub:") && strings.HasSuffix(e, "=fail") {
+			failed = true
+		}
+		if strings.HasPrefix(e, "os.WriteFile:"+cfg.RoutesConfig.OutputPath+":") {
+			wrote = true
+		}
+	}
+	symxAssert((err != nil) == failed, "C09.faults.error-iff-the-file-system-failed")
+	if err == nil {
+		symxAssert(wrote, "C09.faults.success-means-written")
+		symxCover("C09.faults.written")
+	} else {
+		symxCover("C09.faults.refused")
+	}
 }
